@@ -245,8 +245,9 @@ pub fn gen_c18(rng: &mut Rng) -> Value {
                 format!("$O/f{}", rng.below(i))
             }
             0 => {
-                // existing file, longer than the data
-                steps.push(json!({"k":"env","act":"write_file","path":format!("$O/e{i}"),"hex":"ee".repeat((len as usize + 10).min(5000))}));
+                // existing file: longer than the data, or exactly as long with other bytes
+                let n = if rng.chance(1, 2) { (len as usize + 10).min(5000) } else { len as usize };
+                steps.push(json!({"k":"env","act":"write_file","path":format!("$O/e{i}"),"hex":"ee".repeat(n)}));
                 format!("$O/e{i}")
             }
             1 => {
@@ -873,9 +874,13 @@ pub fn gen_c12(rng: &mut Rng) -> Value {
             6 => {
                 // wrong declarations
                 let mut o = json!({});
-                match rng.below(3) {
+                match rng.below(6) {
                     0 => o["size"] = json!(len + 1 + (1 << 20)),
                     1 => o["sri"] = json!({"val":vi,"algo":"sha256","wrong":true}),
+                    // a true digest of another algorithm than the writer's default, no algorithm chosen
+                    2 => o["sri"] = json!({"val":vi,"algo":*rng.pick(&["sha512","sha1","sha384","xxh3"])}),
+                    3 => o["sri"] = json!({"multi":[{"val":vi,"algo":"sha512"},{"val":vi,"algo":"sha1"}]}),
+                    4 => o["size"] = json!(if len > 0 && rng.chance(1, 2) { len - 1 } else { len + 1 }),
                     _ => {
                         o["size"] = json!(len + 1 + (1 << 20));
                         o["sri"] = json!({"val":vi,"algo":"sha256","wrong":true});
